@@ -64,6 +64,21 @@ esac
 
 if [ "$mode" = "--replay" ]; then
   file=${3:?replay file}
+  runlist=$(python3 -c "import json,sys; print(','.join(str(x) for x in json.load(open(sys.argv[1])).get('run_list') or []))" "$file")
+  if [ -n "$runlist" ]; then
+    # the violation depends on the history of the process: execute the recorded list of runs in one fresh process
+    read -r seed gate lock procs race want wantrun < <(python3 -c "import json,sys; d=json.load(open(sys.argv[1])); print(d['batch_seed'], d['gate'], d['lock'], d.get('gomaxprocs') or 1, 1 if d.get('race_build') else 0, d['violation_class'].replace(' ','_'), d['run_index'])" "$file")
+    w="$bindir/simworker"; extra=()
+    if [ "$race" = 1 ]; then w="$bindir/simworker-race"; lp="$OUT/.tmp/replay-race-$$"; export GORACE="halt_on_error=0 log_path=$lp"; extra=(-racelog "$lp"); fi
+    out=$("$w" -prop "$id" -seed "$seed" -gate "$gate" -lock "$lock" -procs "$procs" -runlist "$runlist" -samples 0 -dir "$OUT/.tmp" "${extra[@]}"); rc=$?
+    rm -f "$OUT"/.tmp/replay-race-$$.*
+    [ $rc -ne 0 ] && { echo "HARNESS-TROUBLE: replay worker exit $rc"; exit 2; }
+    got=$(printf '%s' "$out" | python3 -c "import json,sys; v=json.load(sys.stdin).get('violation'); print((v['violation_class'].replace(' ','_')+' '+str(v['run_index'])) if v else 'none -1')")
+    echo "replayed runs [$runlist] in one process: got '$got', recorded '$want $wantrun'"
+    set -- $got
+    if [ "$1" != none ]; then echo "VIOLATION property=$id replay=$file"; exit 1; fi
+    echo "OK: the replay file no longer violates $id on this tree"; exit 0
+  fi
   race=$(python3 -c "import json,sys; print(1 if json.load(open(sys.argv[1])).get('race_build') else 0)" "$file")
   w="$bindir/simworker"; extra=()
   if [ "$race" = 1 ]; then
